@@ -24,3 +24,12 @@ Lemma mapping_invariant sort expected labels vals x k :
   nth_error (groups_of sort expected labels) k = Some x ->
   vals_of (Z.of_nat k) (map (code_of (groups_of sort expected labels)) labels) vals = labelled x labels vals.
 Proof. intros Hnd Hk. apply members_of_slot; [now apply groups_NoDup| exact Hk]. Qed.
+
+Lemma discovered_mapping_sorted :
+  forall labels vals x k,
+    nth_error (groups_of true None labels) k = Some x ->
+    vals_of (Z.of_nat k) (map (code_of (groups_of true None labels)) labels) vals = labelled x labels vals.
+Proof.
+  intros labels vals x k H. apply (mapping_invariant true None labels vals x k); [|exact H].
+  intros ex Hex. discriminate.
+Qed.
